@@ -3,6 +3,7 @@ from ..runner import TestSpec, Outcome
 from ..terms import Prim, Part, PathT, show
 from .. import model, build, gen as G
 from ..snapshot import exact
+from . import edits
 
 ID = "C03"
 RULE = (
@@ -128,4 +129,5 @@ def body(case):
 
 
 def tests(tier):
-    return [TestSpec("select", gen_case, body, {"quick": 6000, "thorough": 600000}, tape=1024, fuzz={"thorough": 40000})]
+    return [TestSpec("select", gen_case, body, {"quick": 6000, "thorough": 600000}, tape=1024, fuzz={"thorough": 40000}),
+            edits.spec("select", 1500, 120000)]
